@@ -8,6 +8,7 @@ ids with gaps, any kinds incl. none, parallel relationships, self loops, the emp
 shard size ≥ 1 and every injective id allocator of the destination.
 -/
 import Dawgs.Proofs.C18
+import Dawgs.Proofs.C18Metrics
 namespace Dawgs.C18.Props
 open Dawgs.C18
 
@@ -103,6 +104,71 @@ theorem verify_iff_match {P : Type} (expected : Metrics) (nodes : List (Node P))
       ∃ actual, graphMetrics nodes edges = some actual ∧ MetricsAgree expected actual :=
   verify_ok_iff expected nodes edges
 
+/-- Verification of the loaded database against the manifest succeeds: the metrics `Verify` collects from
+`load (dump g)` agree with the metrics the dump recorded (the histograms are invariant under the loader's node
+correspondence and under the order in which the destination returns entities). -/
+theorem verify_accepts_loaded {P B D : Type} [DecidableEq D] (c : Codec P B D) (g : Graph P) (hw : WF g)
+    (batch shard lbatch : Nat) (hb : 1 ≤ batch)
+    (alloc allocE : Nat → Nat) (halloc : ∀ a b, alloc a = alloc b → a = b) (nc ec : Nat) :
+    ∃ gd d idmap, dumpGraph c g batch shard = .ok gd ∧
+      load c gd lbatch alloc allocE { nodes := [], edges := [], nodeCtr := nc, edgeCtr := ec } = .ok (d, idmap) ∧
+      verify gd.manifest.metrics d.nodes d.edges = .ok := by
+  obtain ⟨m, hm, hd⟩ := dumpGraph_ok c g hw batch shard hb
+  have hperm : (sortedNodes g).Perm g.nodes := sortBy_perm _ _
+  have hpermE : (sortedEdges g).Perm g.edges := sortBy_perm _ _
+  have hN : ((sortedNodes g).map (fun n => n.id)).Nodup := (hperm.map _).nodup_iff.mpr hw.nodeIds
+  have hE : ∀ e ∈ sortedEdges g, e.src ∈ (sortedNodes g).map (fun n => n.id) ∧ e.dst ∈ (sortedNodes g).map (fun n => n.id) := by
+    intro e he
+    obtain ⟨⟨n1, hn1, h1⟩, ⟨n2, hn2, h2⟩⟩ := hw.endpoints e (hpermE.mem_iff.mp he)
+    exact ⟨List.mem_map.mpr ⟨n1, hperm.mem_iff.mpr hn1, h1⟩, List.mem_map.mpr ⟨n2, hperm.mem_iff.mpr hn2, h2⟩⟩
+  have hl := load_assemble c g shard lbatch (sortedNodes g) (sortedEdges g) m alloc allocE nc ec hN hE
+    (sortBy_length _ _) (sortBy_length _ _)
+  refine ⟨_, _, _, hd, hl, ?_⟩
+  have hiso := iso_of_load g hw alloc allocE halloc nc ec
+  have hndr : (((sortedNodes g).map Node.toRec).map (fun r => r.id)).Nodup := by rw [toRec_ids]; exact hN
+  have hnodes := newNodes_eq_map alloc ((sortedNodes g).map Node.toRec) nc hndr
+  rw [verify_iff_match]
+  show ∃ actual, graphMetrics (newNodes alloc nc ((sortedNodes g).map Node.toRec))
+      (newEdges allocE (phiOf (newMap alloc nc ((sortedNodes g).map Node.toRec))) ec ((sortedEdges g).map Edge.toRec)) = some actual ∧
+      MetricsAgree m actual
+  unfold graphMetrics
+  apply metrics_invariant (dumpNodeObs g) _ (dumpEdgeObs g) _ (phiOf (newMap alloc nc ((sortedNodes g).map Node.toRec)))
+  · -- distinct ids in the dump's node stream
+    have : (dumpNodeObs g).map (fun p => p.1) = (sortedNodes g).map (fun n => n.id) := by
+      unfold dumpNodeObs; rw [List.map_map]; rfl
+    rw [this]; exact hN
+  · -- the id map is injective on them
+    have : (dumpNodeObs g).map (fun p => p.1) = (sortedNodes g).map (fun n => n.id) := by
+      unfold dumpNodeObs; rw [List.map_map]; rfl
+    rw [this]
+    intro a ha b hb hab
+    exact hiso.inj a ((hperm.map _).mem_iff.mp ha) b ((hperm.map _).mem_iff.mp hb) hab
+  · -- endpoints are nodes
+    have : (dumpNodeObs g).map (fun p => p.1) = (sortedNodes g).map (fun n => n.id) := by
+      unfold dumpNodeObs; rw [List.map_map]; rfl
+    rw [this]
+    intro e he
+    obtain ⟨e', he', rfl⟩ := List.mem_map.mp he
+    exact hE e' he'
+  · -- the destination's node stream is a permutation of the renamed source stream
+    refine ((sortBy_perm _ _).map _).trans ?_
+    rw [hnodes]
+    apply List.Perm.of_eq
+    unfold dumpNodeObs
+    simp only [List.map_map]
+    apply List.map_congr_left
+    intro n _
+    rfl
+  · refine ((sortBy_perm _ _).map _).trans ?_
+    apply List.Perm.of_eq
+    have hs := newEdges_strip allocE (phiOf (newMap alloc nc ((sortedNodes g).map Node.toRec))) ((sortedEdges g).map Edge.toRec) ec
+    have := congrArg (List.map (fun t : Nat × Nat × String × P => (t.1, t.2.1, t.2.2.1))) hs
+    simp only [List.map_map] at this
+    unfold dumpEdgeObs
+    simp only [List.map_map]
+    exact this
+  · exact hm
+
 /-! ### The gap between metrics equality and isomorphism -/
 
 /-- two self loops -/
@@ -171,7 +237,8 @@ def C18_full : Prop :=
         verify gd.manifest.metrics nodes' edges' = .ok ↔ ∃ φ, Iso g nodes' edges' φ)
 
 /-- What holds for the code as it is: everything in `C18_full` with "verification succeeds exactly
-when the graphs match" weakened to "exactly when the compared histograms agree". -/
+when the graphs match" weakened to "verification of the loaded database succeeds, and verification of any
+database succeeds exactly when the compared histograms agree". -/
 def C18_partial : Prop :=
   ∀ (P B D : Type) [DecidableEq D] (c : Codec P B D) (g : Graph P), WF g →
   ∀ (batch shard lbatch : Nat), 1 ≤ batch → 1 ≤ shard → 1 ≤ lbatch →
@@ -180,6 +247,7 @@ def C18_partial : Prop :=
       Describes c gd.manifest.files gd.files ∧
       load c gd lbatch alloc allocE { nodes := [], edges := [], nodeCtr := nc, edgeCtr := ec } = .ok (d, idmap) ∧
       Iso g d.nodes d.edges (phiOf idmap) ∧
+      verify gd.manifest.metrics d.nodes d.edges = .ok ∧
       (∀ (nodes' : List (Node P)) (edges' : List (Edge P)),
         verify gd.manifest.metrics nodes' edges' = .ok ↔
           ∃ actual, graphMetrics nodes' edges' = some actual ∧ MetricsAgree gd.manifest.metrics actual)
@@ -190,7 +258,13 @@ theorem c18_partial : C18_partial := by
   obtain ⟨gd', hd', hdesc, _⟩ := manifest_describes_files c g hw batch shard hb
   have : gd' = gd := by rw [hd] at hd'; exact (Except.ok.inj hd').symm
   subst this
-  exact ⟨gd', d, idmap, hd, hdesc, hl, hiso, fun n e => verify_iff_match _ n e⟩
+  obtain ⟨gd2, d2, idmap2, hd2, hl2, hv2⟩ := verify_accepts_loaded c g hw batch shard lbatch hb alloc allocE halloc nc ec
+  have e1 : gd2 = gd' := by rw [hd] at hd2; exact (Except.ok.inj hd2).symm
+  subst e1
+  have e2 : (d2, idmap2) = (d, idmap) := by rw [hl] at hl2; exact (Except.ok.inj hl2).symm
+  have e3 : d2 = d := congrArg Prod.fst e2
+  subst e3
+  exact ⟨gd2, d2, idmap, hd, hdesc, hl, hiso, hv2, fun n e => verify_iff_match _ n e⟩
 
 /-- The full statement fails: `Verify` is a metrics fingerprint, not an isomorphism test. -/
 theorem c18_full_refuted : ¬ C18_full := by
